@@ -1382,3 +1382,29 @@ M.contract(P_SRC + ':_EmptyContents.as_lines',
            params=dict(self=Inst(T._EmptyContents, _transformed=Any_, _as_file_path=Any_)), yields=ListOf(Any_),
            ensures={'one-iterator-without-lines': lambda yielded: len(yielded) == 1 and len(items_of(yielded[0])) == 0},
            raises_only=())
+
+# ------------------------------------------------------------------------------ the two views of a window agree
+# `yields_window` (what the transformers are proved to yield: the slice [win_start, win_end) of the text) and
+# `T_mem` (what the constructors are proved to select: first_line <= n <= last_line) describe the same lines.
+
+_ANY_SINGLE_RANGE_TRANSFORMER = Union(
+    Inst(T._SingleNonNegIntTransformer, _zero_based_line_num=Int),
+    Inst(T._SingleNegIntTransformer, _neg_line_num=Int, _pocket_size=Int),
+    Inst(T._UpperNonNegLimitTransformer, _zero_based_upper_limit=Int),
+    Inst(T._UpperNegLimitTransformer, _neg_line_num=Int),
+    Inst(T._LowerNonNegLimitTransformer, _zero_based_lower_limit=Int),
+    Inst(T._LowerNegLimitTransformer, _neg_line_num=Int),
+    Inst(T._LowerNonNegUpperNonNegTransformer, _zero_based_lower_limit=Int, _zero_based_upper_limit=Int),
+    Inst(T._LowerNonNegUpperNegTransformer, _zero_based_lower_limit=Int, _neg_upper_limit=Int),
+    Inst(T._LowerNegUpperNonNegTransformer, _neg_lower_limit=Int, _zero_based_upper_limit=Int),
+    Inst(T._LowerNegUpperNegTransformer, _neg_lower_limit=Int, _neg_upper_limit=Int))
+
+
+def window_is_T_mem(t, N, n):
+    """line n is in the slice [win_start, win_end) (0-based: n - 1)  <=>  T_mem"""
+    return iff(win_start(t, N) <= n - 1 and n - 1 < win_end(t, N), T_mem(t, N, n))
+
+
+M.contract('contracts.C13b_line_nums:window_is_T_mem', params=dict(t=_ANY_SINGLE_RANGE_TRANSFORMER, N=Nat, n=Int),
+           ensures={'the-slice-that-is-yielded-is-the-window-that-is-selected': lambda result: result},
+           raises_only=())
